@@ -54,7 +54,8 @@ def opBuild (st : DrvState) (j : Json) : J (DrvState × Json) := do
     | .error e => jobj [("err", jstr (errTag e)), ("wc", Json.bool wc), ("spec", optNats spec)]
     | .ok t => jobj [("tree", jarr (t.map renderDesc)), ("orig", jnats (originalIds t)),
                      ("origq", jnats (originalIdsQ t)), ("flat", jnats (flatMemberIds t)),
-                     ("wc", Json.bool wc), ("spec", optNats spec)]
+                     ("wc", Json.bool wc), ("spec", optNats spec),
+                     ("loose", optNats (Spec.loose T defaultDepth ids))]
   pure (st, out)
 
 def opExpandRow (st : DrvState) (j : Json) : J (DrvState × Json) := do
@@ -78,8 +79,10 @@ def opExpandAll (st : DrvState) (_ : Json) : J (DrvState × Json) := do
     | .ok [.seq _ ms] =>
       let flat := flatMemberIds ms
       let lv := (leaves ms).flatMap leafAttrs
+      let lo := match T.d id with | some row => Spec.loose T (defaultDepth - 1) row | none => none
       jarr [jnat id, jstr "ok", jnat flat.length, jnat (digestInts (flat.map Int.ofNat)),
-            Json.bool (spec == some flat), jnat (digestInts lv), jnat (leaves ms).length]
+            Json.bool (spec == some flat), jnat (digestInts lv), jnat (leaves ms).length,
+            Json.bool (lo == some flat)]
     | .ok _ => jarr [jnat id, jstr "notseq"]
     | .error e => jarr [jnat id, jstr (errTag e)]
   pure (st, jobj [("rows", jarr rows)])
